@@ -33,6 +33,9 @@ DOMAIN_CORE = [
     b"[ 1.2.3.4]", b"[1.2.3.4 ]", b"[IPv6:::1]", b"[IPv6:1:2:3:4:5:6:7:8]", b"[IPv6:2001:db8::1]", b"[IPv6:::ffff:1.2.3.4]",
     b"[IPv6:1::1.2.3.4]", b"[IPv6:1:2]", b"[IPv6:1.2.3.4]", b"[ipv6:::1]", b"[IPv6:ge80::1]", b"[1:2:3:4:5:6:7:8]", b"[::1]",
     b"[2001:db8::1]", b"[foo:1.2.3.4]", b"[IPv6:1:2:3:4:5:6:7:8]:9", b"[IPv6:::ffff:0.1.2.3]", b"[IPv6:]", b"[IPv6::::]",
+    b"[IPv6:2001:0db8:0000:0000:0000:ffff:192.168.100.200]", b"[IPv6:0000:0000:0000:0000:0000:ffff:255.255.255.255]",
+    b"[IPv6:ffff:ffff:ffff:ffff:ffff:ffff:ffff:ffff]", b"[IPv6:1111:2222:3333:4444:5555:6666:123.123.123.123]", b"[IPv6:::ffff:192.168.100.200]",
+    b"[255.255.255.255]", b"[IPv6:1:2:3:4:5:6:7::]", b"[IPv6:::2:3:4:5:6:7:8]", b"[127.0.0.1]", b"[IPv6:::1]",
     b"[1.2.3.4][5.6.7.8]", b"[[1.2.3.4]]", b"[1.2.3.4]]", b"[1111111]", b"[aaaaaaaa]:b:c",
     # code points that IDNA maps to nothing / ignorable: the converted name can be empty or lose a label
     "\u00ad".encode(), "\u00ad.com".encode(), "a\u00adb.com".encode(), "\u200b".encode(), "\ufe0f.com".encode(), "a.\u00ad".encode(),
